@@ -346,7 +346,9 @@ def check_c15(run):
                     names = {o["name"] for o in r["ops"] if o["k"] in ("W", "R")}
                     for nm in names:
                         if rng.random() < 0.6:
-                            r["ops"] = [dict(o, k={"W": "WM", "R": "RM"}[o["k"]]) if o["k"] in ("W", "R") and o["name"] == nm else o
+                            # ... or function values (closures): the rule calls the function held in the local
+                            conv = rng.choice([{"W": "WM", "R": "RM"}, {"W": "WN", "R": "RN"}])
+                            r["ops"] = [dict(o, k=conv[o["k"]]) if o["k"] in ("W", "R") and o["name"] == nm else o
                                         for o in r["ops"]]
             elif rng.random() < 0.3 and not any(c["method"] == "ExecuteDAGModel" for c in s["calls"]):
                 # rules without any assignment statement: their locals are bound by forRange only
